@@ -378,7 +378,7 @@ def flat_effects(effs):
 
 class Interp:
     def __init__(self, facts, inline=None, fail_site=None, opaque_defs=(), max_paths=MAX_PATHS,
-                 assume_ok=True, fork_fallible=False, on_call=None, summarise_pure=True, summarise_predicates=False):
+                 assume_ok=True, fork_fallible=False, on_call=None, summarise_pure=True, summarise_predicates=False, virtual_loops=True):
         """
         inline(fnrec, call_term) -> bool    decides whether a local callee body is inlined
         fail_site: site tuple of the single fallible opaque call that returns Err on this run
@@ -396,6 +396,7 @@ class Interp:
         self.merge_accessors = True
         self.summarise_pure = summarise_pure
         self.summarise_predicates = summarise_predicates
+        self.virtual_loops = virtual_loops
         self.npaths = 0
         self.fallible_sites = []
         self._loops_cache = {}
@@ -561,7 +562,7 @@ class Interp:
                 path = (path[0], path[1] + (('v', e['v']),))
             elif k == 'index':
                 iv = self.read(st, (('L', fr.fid, e['l']), ()))
-                path = (path[0], path[1] + (('i', iv),))
+                path = self.index_path(st, path, iv)
             elif k == 'cidx':
                 path = (path[0], path[1] + (('ci', e['off'], e['from_end']),))
             elif k == 'subslice':
@@ -569,6 +570,34 @@ class Interp:
             else:
                 pass
         return path
+
+    def index_path(self, st, path, iv):
+        """`c[i]` where i is the variable of `for i in 0..c.len()`: the element of that iteration, named exactly as the element of
+        `for x in c.iter()` is, so that an indexed loop over a collection and an iterator loop over it have the same facts."""
+        if isinstance(iv, tuple) and iv and iv[0] == 'elem' and is_agg(iv[1]) and iv[1][1].startswith('std::ops::Range'):
+            start, end = agg_field(iv[1], 'start'), agg_field(iv[1], 'end')
+            if end is not None and end[0] == 'cast':
+                end = end[1]
+            if start == ('int', 0) and end is not None and end[0] == 'len':
+                try:
+                    here = self.coll_of(st, ('ref', path))
+                except Exception:
+                    here = None
+                try:
+                    val = self.read(st, path)
+                except Exception:
+                    val = None
+                if (here is not None and (here == end[1] or self.same_coll(here, end[1]))) or (val is not None and val == end[1]) \
+                        or (val is not None and val[0] == 'upd' and val[1] == end[1]):
+                    return (('T', ('elemref', end[1], iv[2])), ())
+        return (path[0], path[1] + (('i', iv),))
+
+    def same_coll(self, a, b):
+        from . import affine
+        try:
+            return affine.canon_coll(a) == affine.canon_coll(b)
+        except Exception:
+            return False
 
     def const(self, c):
         if 'int' in c:
@@ -1067,6 +1096,14 @@ class Interp:
             it = self.operand(pr, pfr, ht['args'][0])
             info['kind'] = 'for'
             info['iter'] = self.strip_ref(pr, it)
+            r_ = info['iter']
+            if is_agg(r_) and r_[1].startswith('std::ops::Range') and agg_field(r_, 'start') == ('int', 0):
+                e_ = agg_field(r_, 'end')
+                if e_ is not None and e_[0] == 'cast':
+                    e_ = e_[1]
+                if e_ is not None and e_[0] == 'len':
+                    info['range'] = r_
+                    info['iter'] = ('iter', e_[1], 'ref')       # indexed loop over a collection (see index_path)
         entry_mem = dict(st.mem)
         W = set()
         lvname = site_str(uid)
@@ -1281,13 +1318,21 @@ class Interp:
             isopt = aty.startswith('std::option::Option<')
             if isres or isopt:
                 kv = st.variants.get(a0)
+                # the variant of `opt.as_ref()` / `opt.as_mut()` is the variant of `opt`: constrain the referent
+                subj = a0
+                if a0[0] == 'opt_as_ref' and a0[1][0] == 'ref':
+                    subj = self.read(st, a0[1][1])
+                    if kv is None:
+                        kv = st.variants.get(subj)
                 if kv is None:
                     s2 = st.fork()
                     s2.variants[a0] = 1
-                    s2.cons.append((('discr', a0), 1))
+                    s2.variants[subj] = 1
+                    s2.cons.append((('discr', subj), 1))
                     work.append(s2)          # re-executes this call with the variant known
                     st.variants[a0] = 0
-                    st.cons.append((('discr', a0), 0))
+                    st.variants[subj] = 0
+                    st.cons.append((('discr', subj), 0))
                     kv = 0
                 if isopt:
                     args[0] = SOME(self.project(a0, (('v', 'Some'), ('f', '0')))) if kv == 1 else NONE
@@ -1431,6 +1476,23 @@ class Interp:
         Interp._acc_cache[key] = kind
         return kind
 
+    @staticmethod
+    def result_err_ty(ty):
+        """E of `std::result::Result<T, E>` (top-level comma split)"""
+        pre = 'std::result::Result<'
+        if not ty.startswith(pre) or not ty.endswith('>'):
+            return None
+        body = ty[len(pre):-1]
+        depth = 0
+        for i_, ch in enumerate(body):
+            if ch in '<([':
+                depth += 1
+            elif ch in '>)]':
+                depth -= 1
+            elif ch == ',' and depth == 0:
+                return body[i_ + 1:].strip()
+        return None
+
     def push_frame(self, st, fr, target, args, dest, ret_target, site, post=None):
         fid = st.nfid
         st.nfid += 1
@@ -1550,6 +1612,13 @@ class Interp:
             return ('trybranch', a0, kind) if kv is None else self.branch_known(a0, kv, t)
         if decl == 'std::ops::FromResidual::from_residual':
             if is_agg(a0, 'std::result::Result', 'Err'):
+                # `?` between two Results with the same error type converts through the identity From<T> for T
+                src_ty = t['args'][0].get('p', {}).get('ty') or ''
+                dst_ty = t['dest']['ty']
+                e1 = self.result_err_ty(src_ty)
+                e2 = self.result_err_ty(dst_ty)
+                if e1 is not None and e1 == e2:
+                    return ERR(agg_field(a0, '0'))
                 return ERR(('from', agg_field(a0, '0')))
             if is_agg(a0, 'std::option::Option', 'None'):
                 return NONE
@@ -1728,8 +1797,18 @@ class Interp:
             name = decl.split('::')[-1]
             if name == 'from_iter':
                 name = 'collect'
+            if name in ('for_each', 'fold') and self.virtual_loops:
+                r = self.virtual_loop(st, fr, name, a0, args[1:], dest, t['target'], site, loopctx, finished)
+                if r is not None:
+                    return r
             st.eff.append(('consume', name, a0, tuple(args[1:]), site))
             return (name, a0) + tuple(args[1:])
+        if decl == 'std::iter::once' and not self.local_body(t):
+            return ('once', a0)
+        if decl == 'std::iter::Iterator::chain' and not self.local_body(t) and len(args) == 2:
+            return ('chain', a0, args[1])
+        if decl == 'std::iter::Iterator::flat_map' and not self.local_body(t) and len(args) == 2:
+            return ('flat_map', a0, args[1])
         if decl == 'core::slice::<impl [T]>::first':
             return ('first', self.coll_of(st, a0))
         if decl == 'core::slice::<impl [T]>::last':
@@ -1743,6 +1822,10 @@ class Interp:
                 base = ('ref', (('T', base), ()))
             if idx[0] == 'agg' and idx[1].startswith('std::ops::Range'):
                 return ('ref', (base[1][0], base[1][1] + (('range', idx),)))
+            if idx[0] == 'elem':
+                ip = self.index_path(st, base[1], idx)
+                if ip[0][0] == 'T' and ip[0][1][0] == 'elemref' and not ip[1]:
+                    return ip[0][1]
             return ('ref', (base[1][0], base[1][1] + (('i', idx),)))
         m_ = re.match(r'core::num::<impl (\w+)>::(checked|saturating|wrapping)_(add|sub|mul)$', decl)
         if m_ and len(args) == 2:
@@ -1888,6 +1971,84 @@ class Interp:
                         return self.F.fns.get(m['key'])
         return None
 
+    def virtual_loop(self, st, fr, name, it, rest, dest, ret_target, site, loopctx, finished):
+        """`iter.for_each(|x| body)` and `iter.fold(init, |acc, x| body)` with a closure (or fn item) of this crate are the loops
+        `for x in iter { body }` / `let mut acc = init; for x in iter { acc = body }`: the closure is explored once with the loop's
+        element (and an unknown accumulator), the memory it changes is carried, and the result is recorded as a `loop` effect with
+        one body per path of the closure, exactly as a `for` loop is.  Returns the value of the call, or None when this does not apply."""
+        base, fs = self.map_chain(it)
+        if fs:
+            return None
+        f = rest[-1] if rest else None
+        if f is None or f[0] not in ('closure', 'fnitem'):
+            return None
+        target = self.F.fns.get(f[1]) if f[0] == 'closure' else (self.F.fns.get(f[2]) if f[2] else None)
+        if target is None or 'blocks' not in target or target.get('krate') != self.F.crate or len(st.frames) >= MAX_DEPTH:
+            return None
+        if f[0] == 'fnitem' and self.inline is not None:
+            try:
+                if not self.inline(target, None):
+                    return None             # the caller keeps this function opaque: stay with the `consume` effect
+            except Exception:
+                return None
+        uid = site
+        lvname = site_str(uid) + '#' + name
+        el = self.elem_of(base, site)
+        acc_lv = ('lv', lvname, 'acc')
+        argv = [el] if name == 'for_each' else [acc_lv, el]
+        cargs = ([f] + argv) if f[0] == 'closure' else argv
+        entry_mem = dict(st.mem)
+        depth = len(st.frames) + 1
+
+        def run(W):
+            base_st = st.fork()
+            mark, ncons = len(base_st.eff), len(base_st.cons)
+            for p_ in sorted(W, key=lambda q: (len(q[1]), repr(q))):
+                self.write_quiet(base_st, p_, ('lv', lvname, path_str(p_)))
+            self.push_frame(base_st, base_st.frames[-1], target, cargs, dest, ret_target, site)
+            res = []
+            saved = self.npaths
+            self.explore([base_st], ('ret', depth), res)
+            self.npaths = saved
+            return res, mark, ncons
+        W = set()
+        for _ in range(5):
+            res, mark, ncons = run(W)
+            W2 = set(W)
+            for s_ in res:
+                if s_.status != 'exit':
+                    continue
+                for key, val in s_.mem.items():
+                    if key == dest or (key[0] == dest[0] and key[1][:len(dest[1])] == dest[1]):
+                        continue
+                    if key[0][0] == 'L' and key[0][1] > fr.fid and not self.frame_alive(st, key[0][1]):
+                        continue
+                    if entry_mem.get(key) != val and not (val[0] == 'lv' and val[1] == lvname):
+                        if key[0][0] == 'T' and self.mentions_elem_of(key[0][1], uid):
+                            continue
+                        W2.add(key)
+            if W2 == W:
+                break
+            W = W2
+        else:
+            return None
+        res, mark, ncons = run(W)
+        bodies = []
+        for s_ in res:
+            if s_.status == 'exit':
+                bodies.append({'eff': s_.eff[mark:], 'cons': s_.cons[ncons:], 'mem': s_.mem, 'result': s_.mem.get(dest)})
+            else:
+                finished.append(s_)             # a panic / divergence inside the closure
+        info = {'kind': 'for', 'site': uid, 'fn': fr.fn['def'], 'iter': self.strip_ref(st, base) if base[0] == 'ref' else base,
+                'virtual': name, 'carried': sorted(path_str(p_) for p_ in W), 'entry': {path_str(p_): self.read(st, p_) for p_ in W},
+                'carried_paths': {path_str(p_): p_ for p_ in W}}
+        if name == 'fold':
+            info['init'] = rest[0]
+        for p_ in sorted(W, key=lambda q: (len(q[1]), repr(q))):
+            self.write_quiet(st, p_, ('lv', lvname, path_str(p_)))
+        st.eff.append(('loop', uid, info, bodies))
+        return UNIT if name == 'for_each' else ('lv', lvname, 'result')
+
     def apply_callable(self, st, fr, f, argv, dest, ret_target, site, wrap=None, post=()):
         """Call closure / fn item `f` with argv.  Returns 'pushed' when a frame was pushed (its
         result, after the post actions, is written to dest), else the resulting term (post applied
@@ -1912,6 +2073,9 @@ class Interp:
         if target is not None and 'blocks' in target and target.get('krate') == self.F.crate \
                 and len(st.frames) < MAX_DEPTH:
             return self.push_frame(st, fr, target, cargs, dest, ret_target, site, post=tuple(post))
+        if f[0] == 'fnitem' and f[3] in ('std::vec::Vec::<T, A>::len', 'core::slice::<impl [T]>::len') and len(argv) == 1:
+            # `.map(Vec::len)`: the same value as the method call
+            return self.finish_post(st, fr, ('len', self.coll_of(st, argv[0])), post, dest, ret_target, site)
         val = ('apply', f, tuple(argv))
         st.eff.append(('call', 'apply', f[3] if f[0] == 'fnitem' else None, (f,) + tuple(argv), site, val))
         return self.finish_post(st, fr, val, post, dest, ret_target, site)
